@@ -50,6 +50,14 @@ def overlap_case(rng):
     m = rng.choice(["ld", "mov", "add"])
     lit, gen = rng.below(256), rng.below(256)
     order = rng.chance(0.5)
+    if rng.chance(0.4):
+        # the literal operand lies inside one token that the other rule starts literally and finishes with a glued parameter
+        n = rng.choice([1, 7, 15])
+        rules = ["%s r%d => 0x%02x" % (m, n, lit), rng.choice(["%s r{n: u4} => 0x%x @ n", "%s r{n} => 0x%x @ n`4"]) % (m, gen & 15)]
+        if order:
+            rules.reverse()
+        text = "#ruledef\n{\n    %s\n}\n%s %s%d\n" % ("\n    ".join(rules), m, "R" if rng.chance(0.3) else "r", n)
+        return text, "".join("1" if (lit >> (7 - i)) & 1 else "0" for i in range(8))
     rules = ["%s %s => 0x%02x" % (m, reg, lit), "%s {x} => 0x%02x @ x`8" % (m, gen)]
     if order:
         rules.reverse()
